@@ -19,6 +19,8 @@ pub enum Kind {
     Reverse,
     Socks5Udp,
     ReverseUdp,
+    /// a UDP session carried inline over an HTTP CONNECT (Proxy-Protocol: udp): subject to timeouts.udp
+    HttpUdp,
 }
 
 #[derive(Clone, Copy, Debug, PartialEq, Eq, Serialize, Deserialize)]
@@ -175,7 +177,7 @@ async fn udp_origin() -> (SocketAddr, tokio::task::JoinHandle<()>) {
 
 fn expected_timeout(c: &Case) -> u64 {
     match c.kind {
-        Kind::Socks5Udp | Kind::ReverseUdp => c.udp.unwrap_or(600),
+        Kind::Socks5Udp | Kind::ReverseUdp | Kind::HttpUdp => c.udp.unwrap_or(600),
         _ => c.idle.unwrap_or(600),
     }
 }
@@ -365,6 +367,78 @@ async fn run_case(inst: &Instance, origin: SocketAddr, udp_orig: SocketAddr, c: 
                 stalled: false,
             }
         }
+        Kind::HttpUdp => {
+            let mut s = TcpStream::connect(lo(inst.http)).await.map_err(|e| e.to_string())?;
+            let src = s.local_addr().map_err(|e| e.to_string())?;
+            let t = b"0.0.0.0:0".to_vec();
+            match http_connect(&mut s, &t, &[(b"Proxy-Protocol".to_vec(), b"udp".to_vec()), (b"Proxy-Channel".to_vec(), b"inline".to_vec())], &[], dur).await {
+                Reply::Ok { .. } => {}
+                other => return Err(format!("udp over http refused: {:?}", other).chars().take(160).collect()),
+            }
+            let target = dest_for(udp_orig);
+            let mut last = Instant::now();
+            let mut t_send: Option<Instant> = None;
+            let mut closed_during = false;
+            let mut buf = [0u8; 2048];
+            let rounds = match c.pattern {
+                Pattern::Silent | Pattern::ClientHalfCloseThenSilence | Pattern::OriginHalfCloseThenSilence => 0,
+                Pattern::BurstThenSilence => 1,
+                Pattern::TrickleC2s(k) | Pattern::TrickleS2c(k) | Pattern::Alternating(k) => k,
+            };
+            for i in 0..rounds {
+                if i > 0 || !matches!(c.pattern, Pattern::BurstThenSilence) {
+                    tokio::time::sleep(period).await;
+                }
+                let f = rc::encode_rpfm(&rc::Rpfm { session: 0, addr: Some(target.clone()), body: b"ping".to_vec() }).unwrap();
+                t_send = Some(Instant::now());
+                if s.write_all(&f).await.is_err() {
+                    closed_during = true;
+                    break;
+                }
+                match tokio::time::timeout(Duration::from_secs(3), s.read(&mut buf)).await {
+                    Ok(Ok(n)) if n > 0 => last = Instant::now(),
+                    _ => {
+                        closed_during = true;
+                        break;
+                    }
+                }
+            }
+            let mut entry = live_entry(inst.api, src).await;
+            for _ in 0..20 {
+                if entry.is_some() {
+                    break;
+                }
+                tokio::time::sleep(Duration::from_millis(25)).await;
+                entry = live_entry(inst.api, src).await;
+            }
+            let wiring = entry.and_then(|e| e["idle_timeout"].as_u64());
+            let mut closed_after = None;
+            if !closed_during {
+                let deadline = last + observe;
+                loop {
+                    let now = Instant::now();
+                    if now >= deadline {
+                        break;
+                    }
+                    match tokio::time::timeout(deadline - now, s.read(&mut buf)).await {
+                        Err(_) => break,
+                        Ok(Ok(n)) if n > 0 => continue,
+                        Ok(_) => {
+                            closed_after = Some(last.elapsed().as_secs_f64());
+                            break;
+                        }
+                    }
+                }
+            }
+            Outcome {
+                wiring,
+                closed_after,
+                slack: t_send.map(|t| last.saturating_duration_since(t).as_secs_f64()).unwrap_or(0.0),
+                observed_for: observe.as_secs_f64(),
+                closed_during_traffic: closed_during,
+                stalled: false,
+            }
+        }
         Kind::Socks5Udp => {
             let mut s = TcpStream::connect(lo(inst.socks)).await.map_err(|e| e.to_string())?;
             let src = s.local_addr().map_err(|e| e.to_string())?;
@@ -493,9 +567,9 @@ async fn run_case(inst: &Instance, origin: SocketAddr, udp_orig: SocketAddr, c: 
 
 fn judge(c: &Case, o: &Outcome) -> Result<(), Failure> {
     let t = expected_timeout(c);
-    let which = if matches!(c.kind, Kind::Socks5Udp | Kind::ReverseUdp) { "udp" } else { "idle" };
+    let which = if matches!(c.kind, Kind::Socks5Udp | Kind::ReverseUdp | Kind::HttpUdp) { "udp" } else { "idle" };
     let cfg = |v: Option<u64>| v.map(|x| x.to_string()).unwrap_or_else(|| "absent".into());
-    let shape = format!("{:?}:{}={}", c.kind, which, if matches!(c.kind, Kind::Socks5Udp | Kind::ReverseUdp) { cfg(c.udp) } else { cfg(c.idle) });
+    let shape = format!("{:?}:{}={}", c.kind, which, if matches!(c.kind, Kind::Socks5Udp | Kind::ReverseUdp | Kind::HttpUdp) { cfg(c.udp) } else { cfg(c.idle) });
     match o.wiring {
         Some(w) if w == t => {}
         Some(w) => {
@@ -544,7 +618,7 @@ fn judge(c: &Case, o: &Outcome) -> Result<(), Failure> {
 
 pub fn cases(tier: Tier) -> Vec<Case> {
     let configs: Vec<(Option<u64>, Option<u64>)> = vec![(None, None), (Some(0), Some(0)), (Some(1), Some(2)), (Some(2), Some(1)), (Some(3), None)];
-    let kinds = [Kind::Http, Kind::Socks5, Kind::Socks4, Kind::Reverse, Kind::Socks5Udp, Kind::ReverseUdp];
+    let kinds = [Kind::Http, Kind::Socks5, Kind::Socks4, Kind::Reverse, Kind::Socks5Udp, Kind::ReverseUdp, Kind::HttpUdp];
     let mut v = vec![];
     for (ci, (idle, udp)) in configs.iter().enumerate() {
         for (ki, k) in kinds.iter().enumerate() {
@@ -556,7 +630,7 @@ pub fn cases(tier: Tier) -> Vec<Case> {
                 vec![Pattern::Silent, Pattern::BurstThenSilence, Pattern::TrickleC2s(2), Pattern::TrickleC2s(5), Pattern::TrickleS2c(3), Pattern::TrickleS2c(5), Pattern::Alternating(4)]
             };
             let mut pats = pats;
-            if !matches!(k, Kind::ReverseUdp | Kind::Socks5Udp) {
+            if !matches!(k, Kind::ReverseUdp | Kind::Socks5Udp | Kind::HttpUdp) {
                 if tier == Tier::Quick {
                     pats.push(if (ci + ki) % 2 == 0 { Pattern::ClientHalfCloseThenSilence } else { Pattern::OriginHalfCloseThenSilence });
                 } else {
@@ -565,7 +639,7 @@ pub fn cases(tier: Tier) -> Vec<Case> {
                 }
             }
             for p in pats {
-                if matches!(p, Pattern::TrickleS2c(_)) && matches!(k, Kind::ReverseUdp | Kind::Socks5Udp) {
+                if matches!(p, Pattern::TrickleS2c(_)) && matches!(k, Kind::ReverseUdp | Kind::Socks5Udp | Kind::HttpUdp) {
                     continue;
                 }
                 v.push(Case { idle: *idle, udp: *udp, kind: *k, pattern: p });
@@ -584,7 +658,7 @@ impl SubCheck for IdleCheck {
         "idle"
     }
     fn rule(&self) -> String {
-        "five real proxy instances (timeouts absent / idle=0,udp=0 / idle=1,udp=2 / idle=2,udp=1 / idle=3) x tunnel kind {http, socks5, socks4, reverse TCP, SOCKS5 UDP association, reverse UDP session} x traffic pattern {silent, burst then silence, client trickle every 0.6 T, origin trickle every 0.6 T, alternating, client half-close then silence, origin half-close then silence (TCP kinds; closure observed through /api/live)}, all cases of an instance in parallel, real seconds; oracle: /api/live shows idle_timeout == the configured value for that kind (TCP <- idle, UDP <- udp, absent => 600); T in 1..3: closed between T-0.1 s (minus the measured delivery latency of that byte: the proxy counts from its own relay of it) and T+2.5 s after the last byte and never during a trickle; T = 0 or 600: still open after 4 s of silence; a host stall (> 0.6 s heartbeat gap) makes an upper-bound miss inconclusive; non-trivial = data after establishment or a non-default timeout".into()
+        "five real proxy instances (timeouts absent / idle=0,udp=0 / idle=1,udp=2 / idle=2,udp=1 / idle=3) x tunnel kind {http, socks5, socks4, reverse TCP, SOCKS5 UDP association, reverse UDP session, UDP session inline over HTTP CONNECT} x traffic pattern {silent, burst then silence, client trickle every 0.6 T, origin trickle every 0.6 T, alternating, client half-close then silence, origin half-close then silence (TCP kinds; closure observed through /api/live)}, all cases of an instance in parallel, real seconds; oracle: /api/live shows idle_timeout == the configured value for that kind (TCP <- idle, every UDP kind <- udp, absent => 600); T in 1..3: closed between T-0.1 s (minus the measured delivery latency of that byte: the proxy counts from its own relay of it) and T+2.5 s after the last byte and never during a trickle; T = 0 or 600: still open after 4 s of silence; a host stall (> 0.6 s heartbeat gap) makes an upper-bound miss inconclusive; non-trivial = data after establishment or a non-default timeout".into()
     }
     fn run(&self, part: &mut Part) {
         let all = cases(part.tier);
